@@ -50,7 +50,7 @@ LEVEL_TEXT = (
 LEVEL_NOTE = "Trusted: VirtualLoop exact time; the window/FIFO/promptness checkers in hv/props/c15.py. Real-time jitter is out of scope."
 
 GAPS = (0, 1, 2, 4, 5, 8)  # in quarter periods
-RANDOM = {"quick": 2500, "thorough": 120_000}
+RANDOM = {"quick": 2500, "thorough": 600_000}
 
 
 class Boom(Exception):
